@@ -113,7 +113,7 @@ def run(tier, seed):
                 return 1
         # (4b) every transition of the implementation-shaped model of the sat core, replayed under the sanitizers
         import satreplay
-        if satreplay.run(ev, PROP, tier, ['SatCoreGen_A1.cfg', 'SatCoreGen_C.cfg'], build='asan', limit=42000 if tier == 'quick' else None):
+        if satreplay.run(ev, PROP, tier, ['SatCoreGen_A1.cfg', 'SatCoreGen_C.cfg', 'SatCoreGen_Asim.cfg'], build='asan', limit=42000 if tier == 'quick' else None):
             return 1
         # (4) network API histories under the sanitizers
         ndrv = vlib.build_driver('net_driver', 'asan')
